@@ -298,13 +298,20 @@ impl Cell {
         self.with_tags(new_tags)
     }
 
+    // a value without tags stays as it is, and one that loses its last tag is a
+    // plain value again: an empty tag map is not the same as no tags
     pub fn remove_tag(&self, key: &Cell) -> Cell {
-        let new_tags = if let Some(tags) = self.tags() {
-            tags.remove(key)
-        } else {
-            Xmap::new()
-        };
-        self.with_tags(new_tags)
+        match self.tags() {
+            None => self.clone(),
+            Some(tags) => {
+                let rest = tags.remove(key);
+                if rest.is_empty() {
+                    self.value().clone()
+                } else {
+                    self.with_tags(rest)
+                }
+            }
+        }
     }
 
     pub fn get_tag(&self, key: &Cell) -> Option<&Cell> {
